@@ -138,6 +138,19 @@ def families(rng):
     a = ns.add(["item", w1], Decimal(7))
     b = ns.add(["item", rng.choice(["-", "/", "."]), w1], Decimal("2.5"))
     fams.append(("item-prefix",) + base(ns, {"n1": a, "n2": b}))
+    # two bound names that differ in letter case only (single words and inside a two-word name)
+    ns = NameSet()
+    w1 = rng.choice([w for w in WORDS if w.lower() != w.upper()])
+    v1 = w1.lower() if w1.lower() != w1 else w1.upper()
+    a, b = ns.add([w1], Decimal(7)), ns.add([v1], Decimal("2.5"))
+    if rng.random() < 0.5:
+        a, b = b, a
+    fams.append(("case-variants",) + base(ns, {"n1": a, "n2": b}))
+    ns = NameSet()
+    w1, w2 = rng.sample([w for w in WORDS if w.lower() != w.upper()], 2)
+    v2 = w2.lower() if w2.lower() != w2 else w2.upper()
+    b, a = ns.add([w1, v2], Decimal("2.5")), ns.add([w1, w2], Decimal(7))
+    fams.append(("case-variants:second-word",) + base(ns, {"n1": a, "n2": b}))
     # symbol names with three words
     ns = NameSet()
     w = rng.sample(WORDS, 3)
@@ -373,6 +386,29 @@ def run(rep, tier, seed):
         text(("for", [("x", ("dom_list", ("name", L)))], ("mul", ("path", ("name", "x"), k2), N2)), "list-became-contexts:for", "for x in %s return x.%s * %s" % (L, k2, n2s))
         rebind(roles["n1"], Decimal(1000))
         text(("sub", N1, N2), "number-rebound", "%s - %s" % (n1s, n2s))
+        # rows with DIFFERENT keys: an entry name is known from whichever row of a bound list of contexts carries it (not the first
+        # row only, not only rows that come before a row without new keys, also from a context nested in a row)
+        arr = rng.choice(["after-row-without-new-key", "missing-in-first-row", "after-empty-row", "first-row-only", "nested-in-row", "last-of-six-rows"])
+        V = Decimal(4)
+        rows, idx, nested = {
+            "after-row-without-new-key": ([{k2: Decimal(1)}, {k2: Decimal(2)}, {k2: Decimal(3), k1: V}], 3, False),
+            "missing-in-first-row": ([{k2: Decimal(1)}, {k1: V}], 2, False),
+            "after-empty-row": ([{}, {k1: V}], 2, False),
+            "first-row-only": ([{k1: V}, {k2: Decimal(1)}], 1, False),
+            "nested-in-row": ([{k2: Decimal(1)}, {k2: {k1: V}}], 2, True),
+            "last-of-six-rows": ([{k2: Decimal(j)} for j in range(5)] + [{k2: Decimal(9), k1: V}], 6, False),
+        }[arr]
+        rebind(L, rows)
+        row = ("filter", ("name", L), ("num", str(idx)), "index")
+        for op in rng.sample(["mul", "add", "sub", "div"], 2):
+            if nested:
+                text((op, ("path", ("path", row, k2), k1), N2), "rows:%s:%s" % (arr, op), "%s[%d].%s.%s %s %s" % (L, idx, k2, k1, SYM[op], n2s))
+            else:
+                text((op, ("path", row, k1), N2), "rows:%s:%s" % (arr, op), "%s[%d].%s %s %s" % (L, idx, k1, SYM[op], n2s))
+        if not nested:
+            text(("some", [("x", ("name", L))], ("cmp", "=", ("sub", ("path", ("name", "x"), k1), ("num", "4")), ("num", "0"))), "rows:%s:some" % arr, "some x in %s satisfies x.%s - 4 = 0" % (L, k1))
+            text(("in", ("path", row, k1), ("range", ("num", "1"), True, ("num", "9"), True)), "rows:%s:in" % arr, "%s[%d].%s in [1..9]" % (L, idx, k1))
+            text(("filter", ("name", L), ("cmp", ">", ("sub", ("name", k1), ("num", "3")), ("num", "0")), "pred"), "rows:%s:filter" % arr, "%s[%s - 3 > 0]" % (L, k1))
         hcases.append({"op": "scopehist", "scope": ns.scope_json(), "steps": steps})
         hmeta.append((fam, sorted(ns.names), exps))
     hres, _ = runner.run_cases("dbg", hcases, rep.workdir, label="histories")
